@@ -463,7 +463,9 @@ def run_check(prop: Prop, tier: str, seed: int) -> int:
                                   "broken_steps": [k for k, _ in broken]})
         log(f"VIOLATION property={pid} replay={path}")
         rc = 1
-    if broken and rc == 0 and not (violations and all((pid, v.get('key', '')) in kn for v in violations)):
+    if broken and rc == 0:
+        # (a known finding among the violations does not explain a broken obligation: known findings are re-found
+        #  on every run, also on the unchanged tree, where nothing is broken)
         path = write_replay(pid, {"property": pid, "kind": "obligation-broken",
                                   "broken": [{"step": k, "detail": d[-3000:]} for k, d in broken],
                                   "theorems": cov["theorems"],
